@@ -90,7 +90,7 @@ def shrink(exe, lines, kind):
     return out
 
 
-def run_traces(res, pid, plan, seed, dump=True, options=None, exe=None, tag=""):
+def run_traces(res, pid, plan, seed, dump=True, options=None, exe=None, tag="", clock=False, skip_kinds=()):
     """plan: list of (profile, ntraces, nops).  Fills res.cov and reports violations of `pid`'s kinds."""
     exe = exe or build(res)
     if exe is None:
@@ -102,7 +102,7 @@ def run_traces(res, pid, plan, seed, dump=True, options=None, exe=None, tag=""):
     for profile, ntr, nops in plan:
         for i in range(ntr):
             s = seed * 1000 + i
-            lines = gen_trace.make_trace(profile, s, nops, options)
+            lines = gen_trace.make_trace(profile, s, nops, options, clock)
             path = os.path.join(tdir, "%s_%d.trace" % (profile, s))
             open(path, "w").write("\n".join(lines) + "\n")
             jobs.append((profile, s, path, lines))
@@ -146,7 +146,7 @@ def run_traces(res, pid, plan, seed, dump=True, options=None, exe=None, tag=""):
                     if rc != 0 and not any(l.startswith("DONE") for l in mout.splitlines()):
                         mism.append((path, "MISMATCH model replay crashed: " + mout[-300:]))
     # report
-    mine = [x for x in viols if kinds is None or x[5] in kinds or (x[5] == "crash" and "crash" in (kinds or ()))]
+    mine = [x for x in viols if (kinds is None or x[5] in kinds or (x[5] == "crash" and "crash" in (kinds or ()))) and x[5] not in skip_kinds]
     reported = set()
     for profile, s, path, lines, op, kind, text in sorted(mine, key=lambda x: (x[5], len(x[3]))):
         if kind in reported:
